@@ -182,11 +182,22 @@ def read(repo, rel):
 def item_at(src, regex, what):
     """Find `regex` in the raw source (must occur exactly once) and return the comment-free text from its start.
     Lexing starts at the item, so exotic literals elsewhere in the file cannot desynchronise it."""
-    ms = list(re.finditer(regex, src))
+    ms = list(re.finditer(regex, src, re.M))
     ms = [m for m in ms if '//' not in src[src.rfind('\n', 0, m.start()) + 1:m.start()]]
     if len(ms) != 1:
         raise Unrecognised('%s: expected exactly one occurrence, found %d' % (what, len(ms)))
-    return strip_comments(src[ms[0].start():])
+    start = ms[0].start()
+    ls = src.rfind('\n', 0, start) + 1
+    indent = re.match(r'[ \t]*', src[ls:]).group(0)
+    first_line_end = src.find('\n', start)
+    if first_line_end < 0:
+        first_line_end = len(src)
+    if src[start:first_line_end].rstrip().endswith(';'):
+        end = first_line_end                    # a one-line item
+    else:
+        m = re.compile(r'^%s\}\)?;?[ \t]*$' % re.escape(indent), re.M).search(src, first_line_end)
+        end = m.end() if m else len(src)        # rustfmt puts the item's closing brace at the item's indentation
+    return strip_comments(src[start:end])
 
 
 def rust_bytes_literal(lit):
@@ -275,10 +286,7 @@ def language_table(src):
     for v in variants:
         if not re.fullmatch(r'[A-Z][A-Za-z0-9]*', v):
             raise Unrecognised('enum Language: variant %r is not a plain unit variant' % v)
-    m = re.search(r'\bimpl\s+Language\s*\{', src)
-    if not m:
-        raise Unrecognised('impl Language not found after the enum')
-    src = src[m.start():]
+    src = item_at(raw, r'^impl\s+Language\s*\{', 'impl Language')
     src = src[:match_close(src, src.index('{'), '{', '}') + 1]
     m = re.search(r'\bpub\s+fn\s+as_str\s*\(\s*self\s*\)\s*->\s*&\s*\'static\s+str\s*\{', src)
     if not m:
@@ -367,10 +375,50 @@ def hash_mode(stmt, var, m):
     return None
 
 
+INCLUDE_FILE_DIGEST_SIG = '(content_digest:String,finder:&TimeMacroFinder,mtime:Option<Timestamp>,)'
+INCLUDE_FILE_DIGEST_BODY = (
+    'if!finder.found_date()&&!finder.found_timestamp(){return Some(content_digest);}'
+    'let mut time_digest=Digest::new();'
+    'if finder.found_date(){time_digest.delimiter(b"date");let date=chrono::Local::now().date_naive();'
+    'time_digest.update(&date.year().to_le_bytes());time_digest.update(&date.month().to_le_bytes());'
+    'time_digest.update(&date.day().to_le_bytes());'
+    'if let Ok(source_date_epoch)=std::env::var("SOURCE_DATE_EPOCH"){time_digest.update(source_date_epoch.as_bytes())}}'
+    'if finder.found_timestamp(){time_digest.delimiter(b"timestamp");mtime?.hash(&mut HashToDigest{digest:&mut time_digest,});}'
+    'Some(format!("{}-{}",content_digest,time_digest.finish()))')
+
+
+def check_include_file_digest(src):
+    """`include_file_digest` is modelled as a whole (KeyEnc.input_digest_pieces / time_pre): its text must be the one
+    the model was written for."""
+    i = item_at(src, r'\bpub\s+fn\s+include_file_digest\s*\(', 'fn include_file_digest')
+    po = i.index('(')
+    pc = match_close(i, po, '(', ')')
+    bo = i.index('{', pc)
+    bc = match_close(i, bo, '{', '}')
+    sig = norm(i[po:pc + 1])
+    if sig.replace(',)', ')') != INCLUDE_FILE_DIGEST_SIG.replace(',)', ')') or re.sub(r'\s+', '', i[pc + 1:bo]) != '->Option<String>':
+        raise Unrecognised('fn include_file_digest: signature %r' % sig)
+    body = norm(i[bo + 1:bc])
+    if body != INCLUDE_FILE_DIGEST_BODY:
+        k = next((j for j, (a, b) in enumerate(zip(body, INCLUDE_FILE_DIGEST_BODY)) if a != b), min(len(body), len(INCLUDE_FILE_DIGEST_BODY)))
+        raise Unrecognised('fn include_file_digest: body differs from the modelled one at %r' % body[max(0, k - 40):k + 60])
+
+
+def check_delimiter(util_src):
+    """Digest::delimiter(name) = "\\0SCCACHE\\0" name "\\0"  (KeyEnc.delimiter)"""
+    i = item_at(util_src, r'\bpub\s+fn\s+delimiter\s*\(', 'fn Digest::delimiter')
+    bo = i.index('{')
+    bc = match_close(i, bo, '{', '}')
+    if norm(i[:bo]) != 'pub fn delimiter(&mut self,name:&[u8])' or \
+            norm(i[bo + 1:bc]) != 'self.update(b"\\0SCCACHE\\0");self.update(name);self.update(b"\\0");':
+        raise Unrecognised('fn Digest::delimiter is not the modelled one: %r' % norm(i[:bc + 1]))
+
+
 def parse_key_function(src, name, version_const):
     """-> (shape, time_gate).  shape = list of components, each a tuple:
     ('CDigest',) ('CPlusplus',) ('CVersion',) ('CFmtVersion',) ('CLang',) ('CArgs', mode) ('CExtra',)
-    ('CEnv', [('EName', mode) | ('EVal', mode) | ('ELit', bytes)]) ('CPP',) ('CPath',) ('CInputDigest',)"""
+    ('CEnv', [('EName', mode) | ('EVal', mode) | ('ELit', bytes)]) ('CPP',) ('CPath',) ('CInputDigest',)
+    ('CInputDigestT',)  (the digest goes through include_file_digest, whose body is checked literally)"""
     P, ret, body = function(src, name)
     stmts = [norm(s) for s in split_statements(body)]
     need = {'digest', 'lang', 'args', 'extra', 'env', 'plusplus'}
@@ -386,6 +434,7 @@ def parse_key_function(src, name, version_const):
     buf_filled = False
     reader = None
     digest_var = None
+    salted_digest = False
     i = 1
     while i < len(stmts):
         s = stmts[i]
@@ -456,13 +505,27 @@ def parse_key_function(src, name, version_const):
             mm = re.fullmatch(r'let %s=if %s\.ignore_time_macros\{Digest::reader_sync\(%s\)\?\}else\{let\((%s),(%s)\)='
                               r'Digest::reader_sync_time_macros\(%s\)\?;if (%s)\.found_time\(\)\{return Ok\(None\);?\}(%s)\}'
                               % (dv, P['config'], reader, ID, ID, reader, ID, ID), s2)
-            if not mm or mm.group(2) != mm.group(3) or mm.group(1) != mm.group(4):
+            # since f36dfcd: the content digest goes through include_file_digest(digest, &finder, mtime)
+            mt = re.fullmatch(r'let %s=if %s\.ignore_time_macros\{Digest::reader_sync\(%s\)\?\}else\{let\((%s),(%s)\)='
+                              r'Digest::reader_sync_time_macros\(%s\)\?;if (%s)\.found_time\(\)\{return Ok\(None\);?\}'
+                              r'let (%s)=std::fs::metadata\(%s\)\.and_then\(\|(%s)\|(%s)\.modified\(\)\)\.ok\(\)\.map\(Into::into\);'
+                              r'match include_file_digest\((%s),&(%s),(%s)\)\{Some\((%s)\)=>(%s),None=>return Ok\(None\),?\}\}'
+                              % (dv, P['config'], reader, ID, ID, reader, ID, ID, re.escape(P['path']), ID, ID, ID, ID, ID, ID, ID), s2)
+            if mt:
+                g = mt.groups()
+                # (digest, finder) ; finder ; mtime ; |meta| meta ; include_file_digest(digest, &finder, mtime) ; Some(x) => x
+                if not (g[1] == g[2] and g[4] == g[5] and g[6] == g[0] and g[7] == g[1] and g[8] == g[3] and g[9] == g[10]):
+                    raise Unrecognised('fn %s: the input-file digest statement binds its variables in an unknown way: %r' % (name, s2))
+                salted_digest = True
+                check_include_file_digest(src)
+                mm = None
+            elif not mm or mm.group(2) != mm.group(3) or mm.group(1) != mm.group(4):
                 raise Unrecognised('fn %s: the input-file digest / time-macro gate is not of the known form: %r (expected like %s)'
                                    % (name, s2, want))
             digest_var = dv
             time_gate = True
         elif digest_var and s == '%s.update(%s.as_bytes())' % (m, digest_var):
-            shape.append(('CInputDigest',))
+            shape.append(('CInputDigestT',) if salted_digest else ('CInputDigest',))
         elif s == '%s.finish()' % m and ret == '->String':
             finished = True
         elif s == 'Ok(Some(%s.finish()))' % m and ret == '->anyhow::Result<Option<String>>':
@@ -480,7 +543,7 @@ EXPECTED_ENV = [('EName', 'LP'), ('ELit', b'='), ('EVal', 'LP')]
 EXPECTED_SHAPE_C = [('CDigest',), ('CPlusplus',), ('CVersion',), ('CLang',), ('CArgs', 'LP'), ('CExtra',),
                     ('CEnv', EXPECTED_ENV), ('CPP',)]
 EXPECTED_SHAPE_P = [('CDigest',), ('CPlusplus',), ('CFmtVersion',), ('CLang',), ('CArgs', 'LP'), ('CExtra',),
-                    ('CEnv', EXPECTED_ENV), ('CPath',), ('CInputDigest',)]
+                    ('CEnv', EXPECTED_ENV), ('CPath',), ('CInputDigestT',)]
 
 
 def read_spec(repo, fallback=None):
@@ -514,6 +577,8 @@ def read_spec(repo, fallback=None):
     def shape_p():
         sh, g = parse_key_function(p, 'preprocessor_cache_entry_hash_key', 'FORMAT_VERSION')
         gate['g'] = g
+        if ('CInputDigestT',) in sh:
+            check_delimiter(read(repo, 'src/util.rs'))
         return sh
 
     item('version', lambda: const_bytes(c, 'CACHE_VERSION'), fallback.get('version'))
